@@ -15,7 +15,9 @@ AcceptsOptions(route) == route \in {"ctor_str", "ctor_path", "ctor_file", "stati
 
 \* sources the constructor must refuse
 BadSources == {"bytes", "int", "list", "StringIO", "float", "tuple",
-               "int0", "bytes_empty", "list_empty", "tuple_empty", "float0", "false", "dict_empty"}     \* falsy ones too
+               "int0", "bytes_empty", "list_empty", "tuple_empty", "float0", "false", "dict_empty",
+               \* things that only LOOK like a path: an os.PathLike that is no pathlib.Path, a file name as bytes
+               "pathlike", "bytearray", "bytes_path", "purepath"}     \* falsy ones too
 
 \* opts = [allow |-> BOOLEAN, custom |-> BOOLEAN]  (custom renderer classes passed or not)
 EffectiveAllow(route, opts) == AcceptsOptions(route) /\ opts.allow
